@@ -167,6 +167,32 @@ pub fn run_faulted(world: &World, cfg: &tower::TowerCfg, ops: &[Op], base_snaps:
     SPIN_NODE.with(|n| *n.borrow_mut() = Some(world.node.clone()));
     let reach_slot: Arc<Mutex<Option<tower::Reachable>>> = Arc::new(Mutex::new(None));
     let reach_slot2 = reach_slot.clone();
+    // Every node RPC that fails while the node is down, after the first one of the outage, is a retry by a
+    // tower that has already noticed the outage: the flag the public API consults must (still) say
+    // 'unreachable' at that moment — nothing has answered since.
+    let raised: Arc<Mutex<Option<String>>> = Arc::new(Mutex::new(None));
+    {
+        let reach = reach_slot.clone();
+        let raised = raised.clone();
+        let down = world.node.down.clone();
+        let failures = std::sync::atomic::AtomicU64::new(0);
+        *lock(&world.node.on_failed_rpc) = Some(Arc::new(move |method: &str| {
+            if !down.load(Ordering::SeqCst) {
+                return;
+            }
+            let n = failures.fetch_add(1, Ordering::SeqCst);
+            if n == 0 {
+                return;
+            }
+            let flag = lock(&reach).as_ref().map(|r| *r.0.lock().unwrap_or_else(|e| e.into_inner()));
+            if flag == Some(true) {
+                let mut r = lock(&raised);
+                if r.is_none() {
+                    *r = Some(format!("retry #{n} of {method} during the outage found the reachability flag raised although nothing had answered since the outage began: the public API takes on new work in that window"));
+                }
+            }
+        }));
+    }
 
     std::thread::scope(|scope| {
         let sched2 = sched.clone();
@@ -522,7 +548,12 @@ pub fn run_faulted(world: &World, cfg: &tower::TowerCfg, ops: &[Op], base_snaps:
         let _ = tower_thread;
     });
     set_observer(None);
+    *lock(&world.node.on_failed_rpc) = None;
     let _ = std::fs::remove_file(&cfg.db_path);
+    if let Some(why) = lock(&raised).take() {
+        // takes precedence: whatever else went wrong follows from a tower that believes the node is back
+        out.violation = Some(("C12:flag-raised-during-outage".into(), why));
+    }
     // panics of tower code during the faulted run
     let recs = panics::take();
     if out.violation.is_none() {
